@@ -24,10 +24,10 @@ func checkC20(sc *Scenario, res *RunResult, t *Truth) []Violation {
 		if panicked {
 			continue // reported as a panic by the generic oracle
 		}
-		vs = append(vs, Violation{"C20", "call-never-returned", c.Op, fmt.Sprintf("%s invoked by %s at t=%v had not returned when the run ended (fake time %v); blocked tasks: %v", c.Desc, c.Client, c.CallT, t.EndT, clipList(res.Out.Blocked, 6)), c.CallSeq})
+		vs = append(vs, Violation{"C20", "call-never-returned", c.Op + scaleOverlapTag(t), fmt.Sprintf("%s invoked by %s at t=%v had not returned when the run ended (fake time %v); blocked tasks: %v", c.Desc, c.Client, c.CallT, t.EndT, clipList(res.Out.Blocked, 6)), c.CallSeq})
 	}
 	if res.Out.HorizonHit || res.Out.StepLimit {
-		vs = append(vs, Violation{"C20", "run-did-not-finish", fmt.Sprintf("horizon=%v steplimit=%v", res.Out.HorizonHit, res.Out.StepLimit), fmt.Sprintf("the simulated run did not finish: blocked tasks: %v", clipList(res.Out.Blocked, 8)), t.EndSeq})
+		vs = append(vs, Violation{"C20", "run-did-not-finish", fmt.Sprintf("horizon=%v steplimit=%v", res.Out.HorizonHit, res.Out.StepLimit) + scaleOverlapTag(t), fmt.Sprintf("the simulated run did not finish: blocked tasks: %v", clipList(res.Out.Blocked, 8)), t.EndSeq})
 	}
 	return vs
 }
@@ -37,4 +37,35 @@ func clipList(xs []string, n int) []string {
 		return append(append([]string{}, xs[:n]...), fmt.Sprintf("... (%d more)", len(xs)-n))
 	}
 	return xs
+}
+
+// scaleOverlapTag marks histories in which a scale request overlapped a start / stop /
+// restart request naming the same process: ScaleProcess renames and re-registers replicas
+// in several unprotected steps, which is a recorded finding of its own.
+func scaleOverlapTag(t *Truth) string {
+	base := func(n string) string {
+		if i := strings.LastIndexByte(n, '-'); i > 0 {
+			return n[:i]
+		}
+		return n
+	}
+	for _, c := range t.Calls {
+		if c.Op != "scale" || c.Err != "" && c.RetSeq >= 0 {
+			continue
+		}
+		for _, d := range t.Calls {
+			if d == c || (d.Op != "start" && d.Op != "stop" && d.Op != "restart" && d.Op != "scale") {
+				continue
+			}
+			if base(d.Arg) != base(c.Arg) {
+				continue
+			}
+			if d.CallSeq < c.RetSeq || c.RetSeq < 0 {
+				if d.RetSeq < 0 || d.RetSeq > c.CallSeq {
+					return " scale-overlap"
+				}
+			}
+		}
+	}
+	return ""
 }
